@@ -3,7 +3,7 @@ C11 — model of the player registry of `pkg/edition/java/proxy` as an interleav
 
 Go (proxy.go, player.go, netmc/connection.go; after the C11 fixes — the code as found is `Mode.asFound`):
 
-    canRegisterConnection(p):  if cfg.OnlineMode && cfg.Kick { return true }
+    canRegisterConnection(p):  if cfg.OnlineMode && cfg.Kick { return true }     -- config only: never player.OnlineMode()
                                RLock; r := names[lower(p)] == nil && ids[id(p)] == nil; RUnlock; return r
     registerConnection(p):     retry: Lock
                                if cfg.OnlineMode && cfg.Kick {            -- as found: `cfg.Kick` alone
@@ -61,6 +61,10 @@ structure Cfg where
   kickFlag : Bool          -- config.OnlineModeKickExistingPlayers
   nameOf   : Pid → Key     -- strings.ToLower(player.Username())
   idOf     : Pid → Key     -- player.ID()
+  onlineOf : Pid → Bool := fun _ => false
+                           -- player.OnlineMode(): whether THIS login was authenticated (true for everybody on an
+                           -- online-mode proxy; on an offline-mode proxy true only when a PreLoginEvent subscriber
+                           -- forced online mode for it).  The registry must not depend on it.
 
 /-- the three sites at which the code as found differs from the repaired code -/
 structure Mode where
@@ -69,13 +73,22 @@ structure Mode where
   kickNeedsOnline : Bool   -- registerConnection tests `OnlineMode && Kick` like canRegisterConnection
   splitUnreg : Bool := false  -- check-then-act variant: unregisterConnection decides ownership in a READ
                               -- section, releases muP, then deletes BY KEY in a separate write section
+  kickPerLogin : Bool := false -- variant, not in the tree: kick mode decided PER LOGIN,
+                               -- `Kick && (OnlineMode || player.OnlineMode())`, in both canRegister and register
   deriving Repr, DecidableEq
 
-def Mode.repaired : Mode := ⟨true, true, true, false⟩
-def Mode.asFound  : Mode := ⟨false, false, false, false⟩
+def Mode.repaired : Mode :=
+  { checkedUnreg := true, unlockOnReject := true, kickNeedsOnline := true, splitUnreg := false, kickPerLogin := false }
+def Mode.asFound  : Mode :=
+  { checkedUnreg := false, unlockOnReject := false, kickNeedsOnline := false, splitUnreg := false, kickPerLogin := false }
 
-/-- does `registerConnection` take its kick branch -/
-def regKick (m : Mode) (c : Cfg) : Bool := if m.kickNeedsOnline then c.online && c.kickFlag else c.kickFlag
+/-- does `registerConnection(p)` take its kick branch -/
+def regKick (m : Mode) (c : Cfg) (p : Pid) : Bool :=
+  if m.kickPerLogin then c.kickFlag && (c.online || c.onlineOf p)
+  else if m.kickNeedsOnline then c.online && c.kickFlag else c.kickFlag
+/-- does `canRegisterConnection(p)` answer `true` without looking at the registry -/
+def canKick (m : Mode) (c : Cfg) (p : Pid) : Bool :=
+  if m.kickPerLogin then c.kickFlag && (c.online || c.onlineOf p) else c.online && c.kickFlag
 /-- kick mode as documented (config.yml) and as `canRegisterConnection` reads it -/
 def Cfg.kickMode (c : Cfg) : Bool := c.online && c.kickFlag
 
@@ -147,14 +160,14 @@ def statusOf (found dup : Bool) : Status :=
 def stepTask (m : Mode) (c : Cfg) (s : Sys) (t : Nat) (task : Task) (rest : List Task) : Option Sys :=
   match task with
   | .call (.canReg p) =>
-    if c.online && c.kickFlag then
+    if canKick m c p then
       some { s with log := s.log ++ [.ret t true], threads := s.threads.set t rest }
     else if s.held.isSome then none
     else some { s with log := s.log ++ [.ret t ((s.names.get (c.nameOf p)).isNone && (s.ids.get (c.idOf p)).isNone)],
                        threads := s.threads.set t rest }
   | .call (.reg p) =>
     if s.held.isSome then none
-    else if regKick m c then
+    else if regKick m c p then
       match s.ids.get (c.idOf p) with
       | some e => some { s with threads := s.threads.set t (.setDup e :: .call (.disconnect e) :: .call (.reg p) :: rest) }
       | none => some { register c s t p with threads := s.threads.set t rest }
